@@ -93,6 +93,9 @@ impl Instance {
 pub enum K2Mode {
     Random,
     BitNeighbour(usize),
+    /// public protocols: the signer's PUBLIC key bytes with one bit flipped (Ed25519 32 bytes, P-384 49 bytes;
+    /// the RSA key stays another pair: a DER alias of the same key would not be "another key")
+    PubBitNeighbour(usize),
     Zero,
     Ones,
 }
@@ -118,6 +121,7 @@ pub fn make_instance(spec: &InstSpec, pairs: &[(String, String)], r: &mut StdRng
     match spec.k2 {
         K2Mode::Random => r.fill(&mut sym2),
         K2Mode::BitNeighbour(bit) => sym2[(bit / 8) % 32] ^= 1 << (bit % 8),
+        K2Mode::PubBitNeighbour(_) => r.fill(&mut sym2),
         K2Mode::Zero => sym2 = [0u8; 32],
         K2Mode::Ones => sym2 = [0xff; 32],
     }
@@ -129,6 +133,14 @@ pub fn make_instance(spec: &InstSpec, pairs: &[(String, String)], r: &mut StdRng
     let mut keys = HashMap::new();
     keys.insert("k1".to_string(), conc::keymat_from(sym1, rsa1));
     keys.insert("k2".to_string(), conc::keymat_from(sym2, rsa2));
+    if let K2Mode::PubBitNeighbour(bit) = spec.k2 {
+        let mut km = conc::keymat_from(sym1, rsa1);
+        km.sym = sym2;
+        km.rsa_pk = conc::keymat_from(sym2, rsa2).rsa_pk;
+        km.ed_pk[(bit / 8) % 32] ^= 1 << (bit % 8);
+        km.p384_pk[(bit / 8) % 49] ^= 1 << (bit % 8);
+        keys.insert("k2".to_string(), km);
+    }
     let mut seeds = HashMap::new();
     let mut s1 = [0u8; 32];
     match spec.seed_special {
